@@ -61,7 +61,9 @@ class Tr:
             if v is None: return [], "None", "none"
             raise Unsupported("constant %r" % (v,))
         if isinstance(e, ast.Name):
-            if e.id not in self.env: raise Unsupported("unknown name " + e.id)
+            if e.id not in self.env:
+                if e.id in self.job.get("constants", []): return [], e.id, "int"
+                raise Unsupported("unknown name " + e.id)
             return [], e.id, self.env[e.id]
         if isinstance(e, ast.Attribute) and isinstance(e.value, ast.Name) and e.value.id == "self" and self.record:
             return [], "(%s self)" % self.field_coq(e.attr), self.field_type(e.attr)
@@ -140,6 +142,10 @@ class Tr:
     def call(self, e):
         f = e.func
         if e.keywords: raise Unsupported("keyword arguments")
+        if isinstance(f, ast.Name) and f.id in ("min", "max") and len(e.args) == 2:
+            b1, x, t1 = self.expr(e.args[0]); b2, y, t2 = self.expr(e.args[1])
+            if t1 != "int" or t2 != "int": raise Unsupported("%s of %s,%s" % (f.id, t1, t2))
+            return b1 + b2, "(Z.%s %s %s)" % (f.id, x, y), "int"
         if isinstance(f, ast.Name) and f.id == "len" and len(e.args) == 1:
             b, v, t = self.expr(e.args[0])
             if t != "bytes": raise Unsupported("len of " + t)
@@ -178,9 +184,11 @@ class Tr:
                 binds += b; terms.append(v)
             if target.mutates: raise Unsupported("call to mutating method inside expression")
             x = self.fresh()
-            callee = target.coq_name + (" self" if target.method else "")
+            callee = target.coq_name + self.cb_args() + (" self" if target.method else "")
             return binds + [(x, "%s %s" % (callee, " ".join(terms)))], x, target.ret
         raise Unsupported("call " + ast.dump(f)[:120])
+    def cb_args(self):
+        return "".join(" cb_%s" % c.lstrip("_") for c in self.job.get("callbacks", []))
     # ---------------------------------------------------------------- statements
     def wrap(self, binds, body):
         for x, m in reversed(binds): body = "%s <- %s ;; %s" % (x, m, body)
@@ -211,6 +219,10 @@ class Tr:
                         else: raise Unsupported("assignment target " + ast.dump(n)[:80])
             elif isinstance(s, ast.If):
                 for n in self.assigned(s.body) + self.assigned(s.orelse): add(n)
+            elif (isinstance(s, ast.Expr) and isinstance(s.value, ast.Call) and isinstance(s.value.func, ast.Attribute)
+                  and isinstance(s.value.func.value, ast.Name) and s.value.func.value.id == "self"):
+                m = s.value.func.attr
+                if m in self.job.get("callbacks", []) or (m in self.funcs and self.funcs[m].mutates): add("self")
         return out
     def ret_ok(self, value_term):
         if self.spec.mutates: return "Ok (self, %s)" % value_term
@@ -225,6 +237,27 @@ class Tr:
             if self.spec.ret.startswith("opt:"): return pad + self.ret_ok("None")
             raise Unsupported("fall-through in function returning " + self.spec.ret)
         s, rest = stmts[0], stmts[1:]
+        if (isinstance(s, ast.Expr) and isinstance(s.value, ast.Call) and isinstance(s.value.func, ast.Attribute)
+                and isinstance(s.value.func.value, ast.Name) and s.value.func.value.id == "self" and self.record and not s.value.keywords):
+            name = s.value.func.attr
+            if name in self.job.get("callbacks", []):
+                # an effectful method outside the translated subset (I/O): a function parameter of type rec -> M rec
+                if s.value.args: raise Unsupported("arguments to callback " + name)
+                if not self.spec.mutates: raise Unsupported("callback in a function that is not state-passing")
+                return pad + "self <- cb_%s self ;;\n%s" % (name.lstrip("_"), self.block(rest, ind, fall))
+            if name in self.funcs and self.funcs[name].method:
+                target = self.funcs[name]
+                if len(s.value.args) != len(target.args): raise Unsupported("arity of call to " + name)
+                binds, terms = [], []
+                for a, (an, at) in zip(s.value.args, target.args.items()):
+                    b, v, t = self.expr(a)
+                    if t != at: raise Unsupported("argument type for " + name)
+                    binds += b; terms.append(v)
+                call = "%s%s self%s" % (target.coq_name, self.cb_args(), "".join(" " + t for t in terms))
+                if target.mutates:
+                    if not self.spec.mutates: raise Unsupported("mutating call in a function that is not state-passing")
+                    return pad + self.wrap(binds, "'(self, _) <- %s ;;\n%s" % (call, self.block(rest, ind, fall)))
+                return pad + self.wrap(binds, "_ <- %s ;;\n%s" % (call, self.block(rest, ind, fall)))
         if isinstance(s, ast.Return):
             if rest: raise Unsupported("statements after return")
             if fall is not None and not fall.startswith("Ok (inr "): raise Unsupported("return inside a joined branch")
@@ -314,6 +347,30 @@ def find_function(tree, cls, name):
         if isinstance(n, (ast.FunctionDef, ast.AsyncFunctionDef)) and n.name == name: return n
     raise Unsupported("function %s%s not found" % (cls + "." if cls else "", name))
 
+def calls_self_methods(fn):
+    out = set()
+    for n in ast.walk(fn):
+        if isinstance(n, ast.Call) and isinstance(n.func, ast.Attribute) and isinstance(n.func.value, ast.Name) and n.func.value.id == "self":
+            out.add(n.func.attr)
+    return out
+
+def module_constants(tree, names):
+    """evaluate module-level integer constants (literals and + - * ** of them)"""
+    vals = {}
+    def ev(e):
+        if isinstance(e, ast.Constant) and isinstance(e.value, int) and not isinstance(e.value, bool): return e.value
+        if isinstance(e, ast.Name) and e.id in vals: return vals[e.id]
+        if isinstance(e, ast.BinOp) and isinstance(e.op, (ast.Add, ast.Sub, ast.Mult, ast.Pow)):
+            l, r = ev(e.left), ev(e.right)
+            return {ast.Add: l + r, ast.Sub: l - r, ast.Mult: l * r}.get(type(e.op)) if not isinstance(e.op, ast.Pow) else l ** r
+        raise Unsupported("constant expression " + ast.dump(e)[:80])
+    for n in tree.body:
+        if isinstance(n, ast.Assign) and len(n.targets) == 1 and isinstance(n.targets[0], ast.Name) and n.targets[0].id in names:
+            vals[n.targets[0].id] = ev(n.value)
+    for name in names:
+        if name not in vals: raise Unsupported("module constant %s not found" % name)
+    return vals
+
 def mutates_self(fn):
     for n in ast.walk(fn):
         if isinstance(n, (ast.Assign, ast.AugAssign)):
@@ -325,30 +382,47 @@ def mutates_self(fn):
 def translate_job(name, job, repo):
     path = os.path.join(repo, job["file"])
     tree = ast.parse(open(path).read())
-    cls = job.get("cls")
-    specs = {}
-    for fname, args, ret in job["funcs"]:
-        specs[fname] = FuncSpec(fname, args, ret, coq_name=job.get("rename", {}).get(fname), method=bool(cls))
-    out = ["(* GENERATED by translate/py2v.py from %s%s — do not edit; regenerated on every check *)" % (job["file"], " class " + cls if cls else ""),
+    default_cls = job.get("cls")
+    callbacks = job.get("callbacks", [])
+    specs, classes = {}, {}
+    for entry in job["funcs"]:
+        fname, args, ret = entry[:3]
+        classes[fname] = entry[3] if len(entry) > 3 else default_cls
+        specs[fname] = FuncSpec(fname, args, ret, coq_name=job.get("rename", {}).get(fname), method=bool(classes[fname]))
+    out = ["(* GENERATED by translate/py2v.py from %s%s — do not edit; regenerated on every check *)" % (job["file"], " class " + default_cls if default_cls else ""),
            "From Verif Require Import Lib.Py.", "Open Scope Z_scope.", ""]
+    for cname, val in module_constants(tree, job.get("constants", [])).items():
+        out.append("Definition %s : Z := %d." % (cname, val))
+    if job.get("constants"): out.append("")
     if job.get("record"):
         rname, fields = job["record"]
         out.append("Record %s := { %s }." % (rname, "; ".join("%s_%s : %s" % (rname, f.lstrip("_"), coq_type(t)) for f, t in fields)))
         out.append("")
-    for fname, args, ret in job["funcs"]:
-        fn = find_function(tree, cls, fname)
-        spec = specs[fname]
+    fns = {fname: find_function(tree, classes[fname], fname) for fname in specs}
+    # which functions pass state: those assigning self.x, calling a callback, or calling such a function (fixpoint)
+    changed = True
+    for fname, fn in fns.items():
+        specs[fname].mutates = bool(classes[fname]) and (mutates_self(fn) or bool(calls_self_methods(fn) & set(callbacks)))
+    while changed:
+        changed = False
+        for fname, fn in fns.items():
+            if classes[fname] and not specs[fname].mutates and any(m in specs and specs[m].mutates for m in calls_self_methods(fn)):
+                specs[fname].mutates = True; changed = True
+    for entry in job["funcs"]:
+        fname, args, ret = entry[:3]
+        fn = fns[fname]; spec = specs[fname]; cls = classes[fname]
         pyargs = [a.arg for a in fn.args.args]
         if cls:
             if not pyargs or pyargs[0] != "self": raise Unsupported("method without self: " + fname)
             pyargs = pyargs[1:]
         if pyargs != list(args) or fn.args.vararg or fn.args.kwarg or fn.args.kwonlyargs or fn.args.defaults:
             raise Unsupported("signature of %s changed: %s" % (fname, pyargs))
-        spec.mutates = bool(cls) and mutates_self(fn)
         tr = Tr(job, spec, specs)
         body = tr.block(fn.body, 1)
         sig = "".join(" (%s : %s)" % (a, coq_type(t)) for a, t in args.items())
-        if cls: sig = " (self : %s)" % job["record"][0] + sig
+        if cls:
+            rec = job["record"][0]
+            sig = "".join(" (cb_%s : %s -> M %s)" % (c.lstrip("_"), rec, rec) for c in callbacks) + " (self : %s)" % rec + sig
         rt = coq_type(ret)
         if spec.mutates: rt = "(%s * %s)" % (job["record"][0], rt)
         out.append("Definition %s%s : M %s :=\n%s.\n" % (spec.coq_name, sig, rt, body))
